@@ -23,3 +23,40 @@ Theorem C10_roundtrip :
       deserialize lib doc de_inner unwrap d (serialize doc ser_inner wrap d v) = OOk v.
 Proof. exact roundtrip. Qed.
 Print Assumptions C10_roundtrip.
+
+(* ---- JSON, concretely: the text serde_json writes for a String / integer value and what it
+   reads back (Sem/Json, compared with the real crate on every run of C04 / C10) ---------------- *)
+From NV Require Import Base.IntTy Sem.Text Sem.Json Lemmas.JsonLemmas.
+
+(* reading what was written gives the value back: every Unicode string, every integer of every width *)
+Theorem C10_json_string_roundtrip : forall s : list N, json_read_string (json_write_string s) = Some s.
+Proof. exact json_read_write_string. Qed.
+Theorem C10_json_int_roundtrip :
+  forall (t : int_ty) (z : Z), in_ty t z = true -> json_read_int t (json_write_int z) = Some z.
+Proof. exact json_read_write_int. Qed.
+Print Assumptions C10_json_string_roundtrip.
+
+(* a newtype's JSON text is its inner value's JSON text *)
+Theorem C10_json_transparent :
+  forall (d : decl) (v : value), serialize (list N) json_ser_inner json_wrap d v = json_ser_inner v.
+Proof. exact json_serialize_transparent. Qed.
+
+(* the abstract round trip with its format hypothesis discharged: String and integer newtypes *)
+Theorem C10_json_roundtrip :
+  forall (lib : fnlib) (d : decl) (raw v : value),
+    has_trait TrDeserialize (d_traits d) = true ->
+    idempotent_on lib d -> comparable d (spec_sanitize lib d raw) = true ->
+    construct lib d raw = OOk v ->
+    json_storable (d_family d) v = true ->
+    deserialize lib (list N) (json_de_inner (d_family d)) json_unwrap d
+      (serialize (list N) json_ser_inner json_wrap d v) = OOk v.
+Proof. exact json_roundtrip. Qed.
+Print Assumptions C10_json_roundtrip.
+
+(* the written text has no raw control character and no unescaped quote inside *)
+Theorem C10_json_string_wellformed :
+  forall s : list N,
+    json_write_string s = (34%N :: interior (json_write_string s) ++ [34%N])%list /\
+    Forall (fun c => (32 <=? c)%N = true) (interior (json_write_string s)) /\
+    no_raw_quote false (interior (json_write_string s)) = true.
+Proof. exact json_write_string_interior. Qed.
